@@ -330,6 +330,18 @@ def cvalue(w):
     raise ValueError(w)
 
 
+def cbigdef(name, typ, items, chunk=1000):
+    """A long list definition split into chunks (a single huge literal overflows coqc's stack)."""
+    parts = []
+    names = []
+    for k in range(0, max(1, len(items)), chunk):
+        nm = "%s_%d" % (name, k // chunk)
+        names.append(nm)
+        parts.append("Definition %s : list (%s) := [\n%s].\n" % (nm, typ, ";\n".join(items[k:k + chunk])))
+    parts.append("Definition %s : list (%s) := %s.\n" % (name, typ, " ++ ".join(names)))
+    return "".join(parts)
+
+
 CASE_HEADER = """From Deserr Require Import Base Pointer %s.
 Local Open Scope string_scope.
 Local Open Scope N_scope.
@@ -350,17 +362,17 @@ def run_coq_files(files, timeout=1500):
             name, text = pending.pop(0)
             path = os.path.join(d, name + ".v")
             open(path, "w").write(text)
-            p = subprocess.Popen(["timeout", str(timeout), "coqc", "-noglob", "-Q", COQ, "Deserr", path],
-                                 cwd=d, stdout=subprocess.PIPE, stderr=subprocess.STDOUT, text=True)
+            p = subprocess.Popen(["bash", "-c", "ulimit -s unlimited 2>/dev/null; exec timeout %d coqc -noglob -Q %s Deserr %s" % (timeout, COQ, path)],
+                                 cwd=d, stdout=open(path[:-2] + ".out", "w"), stderr=subprocess.STDOUT, text=True)
             running.append((name, path, p))
         still = []
         for name, path, p in running:
             if p.poll() is None:
                 still.append((name, path, p))
             else:
-                out = p.stdout.read()
+                out = open(path[:-2] + ".out").read()
                 outs[name] = (p.returncode, out)
-                for ext in (".vo", ".vok", ".vos", ".glob"):
+                for ext in (".vo", ".vok", ".vos", ".glob", ".out"):
                     try:
                         os.remove(path[:-2] + ext)
                     except OSError:
@@ -382,8 +394,29 @@ def parse_idlists(out, expected):
     res = []
     for f in found:
         ids = [int(x) for x in re.findall(r"(\d+)(?:%N)?", f)]
-        res.append(ids)
+        # produced by Base.report: the total count first, then at most 40 ids
+        if not ids:
+            raise Broken("result list without its count: " + f)
+        res.append(BadList(ids[1:], ids[0]))
     return res
+
+
+def evals(exprs):
+    """the closing lines of a case file: one truncated report per comparator"""
+    return "".join("Eval vm_compute in (report (%s)).\n" % e for e in exprs)
+
+
+class BadList(list):
+    """the first ids on which a comparator failed, with the total number of failures"""
+    def __init__(self, ids=(), total=0):
+        super().__init__(ids)
+        self.total = total
+
+    def __bool__(self):
+        return self.total > 0
+
+    def __add__(self, other):
+        return BadList(list(self) + list(other), self.total + other.total)
 
 
 # ---------------------------------------------------------------------------- evidence / violations
